@@ -1,10 +1,60 @@
 from vlib.spec import chx
 
-ASSUMPTIONS = []
+EXPLANATION = ("CrossHair symbolic execution (z3) of the real MutableShareFile / StorageServer methods on an in-memory file model "
+               "(provenance run list + packed header/lease records, harness/_fakefile.py): one operation from an arbitrary "
+               "consistent container state, checked against the byte-array model; integers bounded only by the container's "
+               "representation invariant.")
+ASSUMPTIONS = [
+    "pre-state = any container satisfying the representation invariant that the code itself maintains: 0 <= data_length, "
+    "468 + data_length <= extra_lease_offset <= 468 + MAX_MUTABLE_SHARE_SIZE, file ends with the extra-lease block "
+    "(count + n records); the slack between data and extra leases holds arbitrary stale bytes; 0..2 extra leases",
+    "histories are covered inductively: each operation is shown to map a state that matches the byte-array model to one that "
+    "does (and to preserve the invariant)",
+    "byte contents abstracted to provenance (source tag, source offset); zero fill is a run of zero provenance",
+    "file system: in-memory model, each write() atomic (crash behaviour is C29)",
+    "struct pack/unpack replaced by field lists with the real range checks (FStruct); b'\\x00'*n recompiled to a zero run; "
+    "in mutable_schema._header b''.join recompiled to a payload list",
+    "writev is decomposed: `writev_order` shows it applies the vectors in order through _write_share_data and then truncates; "
+    "`write` shows one _write_share_data is a byte-array write; the end-to-end two-vector / truncate forms run in the thorough tier",
+]
 T = {"quick": 120, "thorough": 900}
 NX = {"quick": [{"nx": 0, "_label": "nx0"}, {"nx": 1, "_label": "nx1"}], "thorough": [{"nx": i, "_label": "nx%d" % i} for i in range(3)]}
+DCALL = [{"exists": e, "nlkind": k, "_label": "%s-%s" % ("existing" if e else "missing", ("none", "zero", "len")[k])}
+         for e in (True, False) for k in (0, 1, 2)]
+DC = {"quick": [c for c in DCALL if not c["exists"] or c["nlkind"] == 1], "thorough": DCALL}
 OBLIGATIONS = [
-    chx("write", "C23_h", "h_write", cases=NX, timeout=T, desc="x"),
-    chx("write_leases", "C23_h", "h_write_leases", cases=NX, timeout=T, desc="x"),
-    chx("read", "C23_h", "h_read", timeout=T, desc="x"),
+    chx("write", "C23_h", "h_write", cases=NX, timeout=T,
+        desc="MutableShareFile._write_share_data (+_change_container_size): for arbitrary (offset, length) the length field becomes "
+             "max(old, offset+length); probe byte p is new data inside the write, zero in the gap [old_len, offset) (never stale "
+             "slack bytes), old data otherwise; DataTooLargeError iff offset+length > MAX_SIZE and then nothing is written",
+        outside="more than 2 extra leases"),
+    chx("write_leases", "C23_h", "h_write_leases", cases=NX, timeout=T,
+        desc="same operation: the 4 in-header lease slots are untouched, the extra-lease block (count + records) is found intact at "
+             "the (possibly relocated) extra_lease_offset, 468 + new length <= extra_lease_offset <= 468 + MAX_SIZE, file ends with "
+             "the block, magic/nodeid/write enabler unchanged"),
+    chx("read", "C23_h", "h_read", timeout=T,
+        desc="MutableShareFile._read_share_data / get_length: result is bytes [offset, min(offset+length, data_length)), empty beyond "
+             "the end; no write to the file"),
+    chx("writev_order", "C23_h", "h_writev_order", timeout=T,
+        desc="MutableShareFile.writev with a recording _write_share_data: every vector applied exactly once, in order, on one file; "
+             "afterwards length = min(length after the writes, new_length) (None = no truncation)"),
+    chx("writev_truncate", "C23_h", "h_writev_truncate", timeout=T, tiers=("thorough",),
+        desc="end-to-end writev(one vector, new_length): header invariant, length, probe byte"),
+    chx("writev_two", "C23_h", "h_writev_two", bounds={"cont_max": 2**40}, timeout=T, tiers=("thorough",),
+        desc="end-to-end writev(two vectors) inside a container that is already large enough (no lease relocation; that is `write`): "
+             "the second write wins on overlap, zero fill between, probe byte"),
+    chx("readv", "C23_h", "h_readv", timeout=T,
+        desc="MutableShareFile.readv: each (offset, length) answered independently and clipped at the current length"),
+    chx("testv", "C23_h", "h_testv", timeout=T,
+        desc="MutableShareFile.check_testv / testv_compare / EmptyShare.check_testv: a test vector passes iff the clipped current "
+             "data equals the specimen; several vectors = conjunction (either order); a missing share reads as empty"),
+    chx("create", "C23_h", "h_create", timeout=T,
+        desc="create_mutable_sharefile / MutableShareFile.create / mutable_schema header: a fresh container is an empty byte array "
+             "with consistent geometry (468 <= extra_lease_offset, empty extra-lease block at the end), no leases; any read is empty; "
+             "its first lease goes into in-header slot 0 without needing space and leaves the geometry alone"),
+    chx("delete_create", "C23_h", "h_delete_create", cases=DC, timeout=T,
+        desc="StorageServer._evaluate_write_vectors (+_allocate_slot_share, create_mutable_sharefile, MutableShareFile.create, "
+             "mutable_schema header): new_length == 0 deletes the share (and the empty bucket directory, not other shares) even if "
+             "write vectors are given and never creates one; otherwise a missing share is created empty (4 blank lease slots, "
+             "right magic/nodeid/write enabler) and then written like a byte array"),
 ]
